@@ -1,6 +1,7 @@
 package main
 
 import (
+	"bytes"
 	"encoding/json"
 	"math/rand"
 	"os"
@@ -321,11 +322,27 @@ func nulInjected(f func([]byte)) {
 	}
 }
 
+// uriDestinations yields links, images and autolinks whose destination ranges over every string of up to 4 symbols
+// that matter to URI normalisation (pass-through, percent sign, hex and non-hex digits, space, non-ASCII, a reserved
+// character that must be encoded).
+func uriDestinations(f func([]byte)) {
+	exhaustive([]string{"a", "%", "4", "G", " ", "é", "["}, 4, func(d []byte) {
+		if len(d) == 0 {
+			return
+		}
+		f([]byte("[t](<" + string(d) + ">) ![i](<" + string(d) + "> \"" + string(d) + "\")\n"))
+		if !bytes.ContainsAny(d, " [") {
+			f([]byte("<http://h/" + string(d) + ">\n"))
+		}
+	})
+}
+
 // structured yields the deterministic structured families shared by the input sets of most checks.
 func (s *inputSource) structured(thorough bool, f func([]byte)) {
 	nestedInlines(map[bool]int{false: 3, true: 4}[thorough], f)
 	linkPieces(f)
 	dupDefinitions(f)
+	uriDestinations(f)
 	nulInjected(f)
 	s.lineProducts(map[bool]int{false: 4000, true: 120000}[thorough], func(d []byte) {
 		f(d)
